@@ -83,7 +83,7 @@ def build_shim(bdir, backend):
     bdefs, _ = BL.backend_flags(be)
     R = BL.repo()
     so = os.path.join(bdir, 'libhist_%s.so' % backend)
-    wrap = '-Wl,--wrap=malloc,--wrap=free' + (',--wrap=idn2_to_ascii_8z' if backend == 'idn2' else '')
+    wrap = '-Wl,--wrap=malloc,--wrap=free,--wrap=strndup,--wrap=strdup,--wrap=calloc' + (',--wrap=idn2_to_ascii_8z' if backend == 'idn2' else '')
     cmd = [cc] + cflags + ['-std=gnu99', '-fPIC', '-shared', '-Wl,-Bsymbolic', '-Wl,-z,now', wrap, '-I' + os.path.join(R, 'include'), '-I' + R] + BL.BASE_DEFS + bdefs + \
           ['-o', so, os.path.join(V, 'drv', 'shim.c')] + objs + ['-lidn2']
     rc, out = BL.sh(cmd)
